@@ -972,7 +972,9 @@ class _IntMeta(type):
     def __subclasscheck__(cls, c):
         return c is cls or builtins.issubclass(c, (builtins.int, SymInt))
 
-    def __call__(cls, x=0, *a):
+    def __call__(cls, x=0, *a, **kw):
+        if kw:
+            return builtins.int(x, *a, **kw)
         if builtins.isinstance(x, SymInt):
             return x
         if builtins.isinstance(x, SymBool):
